@@ -14,6 +14,73 @@ func init() {
 func checkC29(p *Prog, r *Report) {
 	r.Explanation = "Clean-failure and lookup clauses of the CAS filesystem view. (1) E11 recursion measure: CASFileSystem.open follows symlink targets taken from the tree (external data) by calling itself; the recursive call must carry an integer that grows by a constant and is compared with a limit on an edge that returns an error, so a loop of links fails cleanly instead of overflowing the stack. (2) the absolute-target test dominates the recursive call and returns an error; `..` components are refused in findNode. (3) per-hop resolution: the next path is Join(Dir(x), target) where x is the very path this frame looked up (the first argument of the findNode call that produced the link). (4) findNode's recursion consumes its path: the recursive argument is the remainder returned by strings.Cut. (5) exhaustive lookup: the loops over a directory's Directories / Files / Symlinks are left early only on a name match (no assumption that entries are sorted). io/fs conformance (fstest) is not decided."
 	r.NotCovered = []string{"io/fs contracts (ReadDir ordering, Stat/Open agreement)", "content of files read from the CAS", "symlinks to directories followed in the middle of a path"}
+	// the local blob cache behind the view: a blob is stored only after its download succeeded (a partial read would be
+	// served as the whole file from then on)
+	if rb := p.Fn("remote/fs/cache", "Client.ReadBlob"); rb == nil {
+		r.unresolved("E5.cache-only-complete-blobs", "remote/fs/cache.Client.ReadBlob")
+	} else {
+		st := p.Fn("remote/fs/cache", "Client.store")
+		n, bad := 0, 0
+		var site token.Pos
+		for _, ci := range callsInFn(rb, st) {
+			n++
+			okk := false
+			eachInstr(rb, false, func(_ *ssa.Function, j ssa.Instruction) {
+				c, ok := j.(*ssa.Call)
+				if !ok || !c.Call.IsInvoke() || c.Call.Method.Name() != "ReadBlob" || !instrDominates(c, ci) {
+					return
+				}
+				if k, isNil := errKnown(factsAt(ci), resultsOf(c, 2)); k && isNil {
+					okk = true
+				}
+			})
+			if !okk {
+				bad++
+				site = ci.Pos()
+			}
+		}
+		if n == 0 {
+			r.unresolved("E5.cache-only-complete-blobs", "the store call in Client.ReadBlob")
+		} else {
+			r.check(bad == 0, "E5.cache-only-complete-blobs", "a downloaded blob is stored only when the download returned no error", p.pos(site), fnName(rb), "store(d, bs) is on the err == nil edge of the remote ReadBlob", "the local CAS cache stores what a failed download returned (the SDK hands back the partial buffer together with the stream error): the truncated bytes sit under the full digest, and every later open of that file, of a link to it or of a file with the same content silently returns them while Stat reports the full size")
+		}
+	}
+	// listing a directory with n <= 0 never reports io.EOF (io/fs: "ReadDir returns all the DirEntry values ... a nil error")
+	if rd := p.Fn("remote/fs", "dir.ReadDir"); rd == nil {
+		r.unresolved("E5.readdir-eof-only-when-paging", "remote/fs.dir.ReadDir")
+	} else {
+		bad := false
+		var nPrm *ssa.Parameter
+		for _, prm := range rd.Params {
+			if prm.Name() == "n" {
+				nPrm = prm
+			}
+		}
+		for _, rc := range returnCases(rd, 1) {
+			isEOF := false
+			for x := range backSlice(rc.Vals[1], SliceOpts{}) {
+				if g, ok := x.(*ssa.Global); ok && g.Name() == "EOF" {
+					isEOF = true
+				}
+			}
+			if !isEOF {
+				continue
+			}
+			paging := false
+			for _, f := range rc.Facts {
+				if bo, ok := f.V.(*ssa.BinOp); ok && nPrm != nil {
+					z, isC := constInt(bo.Y)
+					if bo.X == ssa.Value(nPrm) && isC && z == 0 && ((bo.Op == token.GTR && f.Val) || (bo.Op == token.LEQ && !f.Val)) {
+						paging = true
+					}
+				}
+			}
+			if !paging {
+				bad = true
+			}
+		}
+		r.check(!bad, "E5.readdir-eof-only-when-paging", "ReadDir returns io.EOF only for n > 0", p.pos(rd.Pos()), fnName(rd), "every return of io.EOF is under n > 0", "ReadDir(-1) can return io.EOF (for an empty directory, or on an exhausted handle): fs.ReadDir, fs.WalkDir and fs.Glob treat that as a failure, so listing or walking a tree that contains an empty directory errors instead of succeeding")
+	}
 	// every open hands out its own file object: a handle carries a read offset and the name/mode of the node it was
 	// opened through, so an object shared between opens (a cache keyed by digest) mixes both up
 	if of := p.Fn("remote/fs", "CASFileSystem.openFile"); of == nil {
